@@ -29,7 +29,8 @@ def changes_for(pid, kind):
             out.append(('mutants/%s/%s' % (pid, os.path.basename(d)), d))
     if kind in ('seeded', 'both'):
         for d in sorted(glob.glob(os.path.join(V, 'seeded', pid, '*', 'patch.diff'))):
-            out.append(('seeded/%s/%s' % (pid, os.path.basename(os.path.dirname(d))), d))
+            rb = os.path.join(os.path.dirname(d), 'patch-rebased.diff')   # same change re-made after /repo moved under it
+            out.append(('seeded/%s/%s' % (pid, os.path.basename(os.path.dirname(d))), rb if os.path.exists(rb) else d))
     return out
 
 
@@ -90,7 +91,7 @@ def do_prop(pid, args):
         if args.checks == 'all' and not r['caught']:
             # which other property checks notice it?
             others = {}
-            for other in args.all_ids:
+            for other in ([x for x in args.others.split(',') if x] or args.all_ids):
                 if other != pid:
                     o = run_check(sv, srepo, other, args.tier, args.seed)
                     if o['rc'] != 0:
@@ -113,6 +114,7 @@ def main():
     ap.add_argument('--seed', type=int, default=1)
     ap.add_argument('--checks', default='own')
     ap.add_argument('--only', action='append')
+    ap.add_argument('--others', default='', help='with --checks all: comma-separated property ids to try when the own check misses (default: all)')
     ap.add_argument('--scratch', default='/tmp/mutrun')
     args = ap.parse_args()
     allids = sorted({os.path.basename(p) for p in glob.glob(os.path.join(V, 'mutants', 'C*')) + glob.glob(os.path.join(V, 'seeded', 'C*'))})
